@@ -197,6 +197,8 @@ Proof.
     [ reflexivity | intros b Nb; auto | ];
     rewrite Hx'; cbn [rel11]; unfold c11_of; rewrite P1, P2, P3;
     repeat split; try assumption; try tauto; try congruence; try (intros; discriminate) ].
+  (* a message leaving the unmodelled mailbox of a library actor *)
+  all: try solve [ eexists; (split; [reflexivity|]); exact R ].
   1: { (* HEnd panicked: no limit involved *)
     destruct (Rd _ _ eq_refl) as (t0 & Hhb & Hdl). rewrite Hhb, Rs, Nat.eqb_refl. cbn [negb].
     eexists; (split; [reflexivity|]).
